@@ -3,3 +3,1033 @@
 From A1 Require Import Bits.Naive Bits.Copy.
 Require Import ZifyBool ZifyNat ZifyN.
 Local Open Scope N_scope.
+
+Definition byte (b : N) : Prop := b < 256.
+
+(** * finite sweeps *)
+Definition nrange (k : nat) : list N := map N.of_nat (seq 0 k).
+Lemma nrange_in k n : n < N.of_nat k -> In n (nrange k).
+Proof.
+  intros H. unfold nrange. apply in_map_iff. exists (N.to_nat n). split; [lia|].
+  apply in_seq. lia.
+Qed.
+Lemma sweep (P : N -> bool) k :
+  forallb P (nrange k) = true -> forall n, n < N.of_nat k -> P n = true.
+Proof. intros H n Hn. rewrite forallb_forall in H. apply H, nrange_in, Hn. Qed.
+
+Fixpoint bits_eqb (a b : bits) : bool :=
+  match a, b with
+  | [], [] => true
+  | x :: a', y :: b' => Bool.eqb x y && bits_eqb a' b'
+  | _, _ => false
+  end.
+Lemma bits_eqb_eq a : forall b, bits_eqb a b = true -> a = b.
+Proof.
+  induction a as [|x a IH]; intros [|y b] H; cbn [bits_eqb] in H; try discriminate; [reflexivity|].
+  apply andb_true_iff in H. destruct H as [H1 H2]. apply eqb_prop in H1. f_equal; auto.
+Qed.
+
+(* single-bit set/clear/test on a byte, for both mask spellings used in slice.rs *)
+Definition bit_step_ok (b j : N) (v : bool) : bool :=
+  let mask := 2 ^ (8 - j - 1) in
+  let nb := if v then N.lor b mask else N.land b (255 - mask) in
+  (nb <? 256)
+  && bits_eqb (byte_bits nb) (splice (N.to_nat j) [v] (byte_bits b))
+  && Bool.eqb (negb (N.land b mask =? 0)) (nth (N.to_nat j) (byte_bits b) false)
+  && (128 / 2 ^ j =? mask).
+
+Lemma bit_sweep :
+  forallb (fun b : N => forallb (fun j : N => bit_step_ok b j true && bit_step_ok b j false) (nrange 8)) (nrange 256) = true.
+Proof. vm_compute. reflexivity. Qed.
+
+Lemma bit_step_spec (b j : N) (v : bool) : b < 256 -> j < 8 ->
+  let mask := 2 ^ (8 - j - 1) in
+  let nb := if v then N.lor b mask else N.land b (255 - mask) in
+  nb < 256 /\ byte_bits nb = splice (N.to_nat j) [v] (byte_bits b)
+  /\ negb (N.land b mask =? 0) = nth (N.to_nat j) (byte_bits b) false
+  /\ 128 / 2 ^ j = mask.
+Proof.
+  intros Hb Hj.
+  pose proof (sweep _ _ bit_sweep b Hb) as S1. cbv beta in S1.
+  pose proof (sweep _ _ S1 j Hj) as S2. cbv beta in S2.
+  apply andb_true_iff in S2. destruct S2 as [St Sf].
+  assert (bit_step_ok b j v = true) as S by (destruct v; assumption).
+  unfold bit_step_ok in S. cbv zeta in S |- *.
+  repeat (apply andb_true_iff in S; destruct S as [S ?]).
+  repeat split.
+  - apply N.ltb_lt. assumption.
+  - apply bits_eqb_eq. assumption.
+  - apply eqb_prop. assumption.
+  - apply N.eqb_eq. assumption.
+Qed.
+
+(* the two halves of the unaligned whole-byte step *)
+Definition ul_ok (off a b : N) : bool :=
+  let l := N.lor (N.land a ((255 * 2 ^ (8 - off)) mod 256)) (b / 2 ^ off) in
+  let r := N.lor (N.land a (255 / 2 ^ off)) ((b * 2 ^ (8 - off)) mod 256) in
+  (l <? 256) && (r <? 256)
+  && bits_eqb (byte_bits l) (splice (N.to_nat off) (firstn (8 - N.to_nat off) (byte_bits b)) (byte_bits a))
+  && bits_eqb (byte_bits r) (splice 0 (skipn (8 - N.to_nat off) (byte_bits b)) (byte_bits a)).
+
+Lemma ul_sweep :
+  forallb (fun off : N => forallb (fun a : N => forallb (fun b : N => ul_ok off a b) (nrange 256)) (nrange 256)) (nrange 8) = true.
+Proof. vm_compute. reflexivity. Qed.
+
+Lemma ul_spec (off a b : N) : off < 8 -> a < 256 -> b < 256 ->
+  let l := N.lor (N.land a ((255 * 2 ^ (8 - off)) mod 256)) (b / 2 ^ off) in
+  let r := N.lor (N.land a (255 / 2 ^ off)) ((b * 2 ^ (8 - off)) mod 256) in
+  l < 256 /\ r < 256
+  /\ byte_bits l = splice (N.to_nat off) (firstn (8 - N.to_nat off) (byte_bits b)) (byte_bits a)
+  /\ byte_bits r = splice 0 (skipn (8 - N.to_nat off) (byte_bits b)) (byte_bits a).
+Proof.
+  intros Ho Ha Hb.
+  pose proof (sweep _ _ ul_sweep off Ho) as S1. cbv beta in S1.
+  pose proof (sweep _ _ S1 a Ha) as S2. cbv beta in S2.
+  pose proof (sweep _ _ S2 b Hb) as S.
+  unfold ul_ok in S. cbv zeta in S |- *.
+  repeat (apply andb_true_iff in S; destruct S as [S ?]).
+  repeat split.
+  - apply N.ltb_lt. assumption.
+  - apply N.ltb_lt. assumption.
+  - apply bits_eqb_eq. assumption.
+  - apply bits_eqb_eq. assumption.
+Qed.
+
+(** * lists, bits of bytes, splice *)
+Lemma byte_bits_length b : length (byte_bits b) = 8%nat.
+Proof. reflexivity. Qed.
+
+Lemma bits_cons b l : bits_of_bytes (b :: l) = byte_bits b ++ bits_of_bytes l.
+Proof. reflexivity. Qed.
+
+Lemma bits_app l1 l2 : bits_of_bytes (l1 ++ l2) = bits_of_bytes l1 ++ bits_of_bytes l2.
+Proof. apply flat_map_app. Qed.
+
+Lemma bits_length l : length (bits_of_bytes l) = (8 * length l)%nat.
+Proof.
+  induction l as [|b l IH]; [reflexivity|].
+  rewrite bits_cons, app_length, byte_bits_length, IH. cbn [length]. lia.
+Qed.
+
+Lemma split2 {A} (l : list A) n : (n <= length l)%nat ->
+  exists l1 l2, l = l1 ++ l2 /\ length l1 = n.
+Proof.
+  intros H. exists (firstn n l), (skipn n l). rewrite firstn_skipn, firstn_length. split; [reflexivity|lia].
+Qed.
+
+Lemma split3 {A} (l : list A) p n : (p + n <= length l)%nat ->
+  exists l1 l2 l3, l = l1 ++ l2 ++ l3 /\ length l1 = p /\ length l2 = n.
+Proof.
+  intros H. destruct (split2 l p) as (l1 & r & E & L1); [lia|].
+  subst l. rewrite app_length in H.
+  destruct (split2 r n) as (l2 & l3 & E & L2); [lia|].
+  subst r. exists l1, l2, l3. auto.
+Qed.
+
+Lemma splice_at p (A B C xs : bits) : length A = p -> length B = length xs ->
+  splice p xs (A ++ B ++ C) = A ++ xs ++ C.
+Proof.
+  intros HA HB. subst p. unfold splice.
+  rewrite firstn_app, Nat.sub_diag, firstn_all. cbn [firstn]. rewrite app_nil_r.
+  rewrite skipn_app, (skipn_all2 A) by lia. cbn [app].
+  replace (length A + length xs - length A)%nat with (length B) by lia.
+  rewrite skipn_app, skipn_all, Nat.sub_diag. reflexivity.
+Qed.
+
+Lemma splice_nil p l : splice p [] l = l.
+Proof. unfold splice. cbn [app length]. rewrite Nat.add_0_r. apply firstn_skipn. Qed.
+
+Lemma splice_length p xs l : (p + length xs <= length l)%nat -> length (splice p xs l) = length l.
+Proof. intros H. unfold splice. rewrite !app_length, firstn_length, skipn_length. lia. Qed.
+
+Lemma splice_consec p xs ys l : (p + length xs + length ys <= length l)%nat ->
+  splice (p + length xs) ys (splice p xs l) = splice p (xs ++ ys) l.
+Proof.
+  intros H.
+  destruct (split3 l p (length xs)) as (A & B & R & E & HA & HB); [lia|].
+  subst l. rewrite !app_length in H.
+  destruct (split2 R (length ys)) as (B' & C & E & HB'); [lia|].
+  subst R.
+  rewrite (splice_at p A B (B' ++ C) xs HA HB).
+  replace (A ++ xs ++ B' ++ C) with ((A ++ xs) ++ B' ++ C) by (rewrite <- app_assoc; reflexivity).
+  rewrite splice_at by (rewrite ?app_length; lia).
+  replace (A ++ B ++ B' ++ C) with (A ++ (B ++ B') ++ C) by (rewrite <- app_assoc; reflexivity).
+  rewrite splice_at by (rewrite ?app_length; lia).
+  rewrite <- !app_assoc. reflexivity.
+Qed.
+
+Lemma splice_mid (A B C xs : bits) j : (j + length xs <= length B)%nat ->
+  splice (length A + j) xs (A ++ B ++ C) = A ++ splice j xs B ++ C.
+Proof.
+  intros H.
+  destruct (split3 B j (length xs)) as (B1 & B2 & B3 & E & H1 & H2); [lia|].
+  subst B.
+  rewrite (splice_at j B1 B2 B3 xs H1 H2).
+  replace (A ++ (B1 ++ B2 ++ B3) ++ C) with ((A ++ B1) ++ B2 ++ (B3 ++ C))
+    by (rewrite <- !app_assoc; reflexivity).
+  rewrite splice_at by (rewrite ?app_length; lia).
+  rewrite <- !app_assoc. reflexivity.
+Qed.
+
+Lemma slice_length (s : bits) q n : (q + n <= length s)%nat -> length (slice s q n) = n.
+Proof. intros H. unfold slice. rewrite firstn_length, skipn_length. lia. Qed.
+
+Lemma slice_S (s : bits) q n v : nth_error s q = Some v ->
+  slice s q (S n) = v :: slice s (S q) n.
+Proof.
+  intros H. apply nth_error_split in H. destruct H as (l1 & l2 & E & L). subst s q.
+  unfold slice.
+  rewrite !skipn_app, !(skipn_all2 l1) by lia. cbn [app].
+  rewrite Nat.sub_diag. replace (S (length l1) - length l1)%nat with 1%nat by lia.
+  reflexivity.
+Qed.
+
+Lemma skipn_add {A} b : forall a (l : list A), skipn a (skipn b l) = skipn (b + a) l.
+Proof.
+  induction b as [|b IH]; intros a l; [reflexivity|].
+  destruct l as [|x l]; [rewrite !skipn_nil; reflexivity|]. cbn [skipn plus]. apply IH.
+Qed.
+
+Lemma slice_app (s : bits) q a b :
+  slice s q (a + b) = slice s q a ++ slice s (q + a) b.
+Proof.
+  unfold slice. rewrite <- (firstn_skipn a (firstn (a + b) (skipn q s))).
+  f_equal.
+  - rewrite firstn_firstn. f_equal. lia.
+  - rewrite skipn_firstn_comm, skipn_add. f_equal. lia.
+Qed.
+
+(** * byte access *)
+Lemma byte_split (l : list N) i : i < blen l ->
+  exists A db C, l = A ++ db :: C /\ length A = N.to_nat i.
+Proof.
+  intros H. destruct (nth_error l (N.to_nat i)) as [db|] eqn:E.
+  - apply nth_error_split in E. destruct E as (A & C & E & L). exists A, db, C. auto.
+  - apply nth_error_None in E. unfold blen in H. lia.
+Qed.
+
+Lemma getb_at l A db C i : l = A ++ db :: C -> length A = N.to_nat i -> getb l i = Ok db.
+Proof.
+  intros E L. subst l. unfold getb. rewrite <- L, nth_error_app2, Nat.sub_diag by lia. reflexivity.
+Qed.
+
+Lemma setb_at l A db C i nb : l = A ++ db :: C -> length A = N.to_nat i ->
+  setb l i nb = Ok (A ++ nb :: C).
+Proof.
+  intros E L. subst l. unfold setb, blen. rewrite app_length. cbn [length].
+  destruct (N.ltb_spec i (N.of_nat (length A + S (length C)))) as [_|Hc]; [|lia].
+  rewrite <- L. f_equal.
+  rewrite firstn_app, Nat.sub_diag, firstn_all. cbn [firstn]. rewrite app_nil_r. f_equal. f_equal.
+  rewrite skipn_app, skipn_all2 by lia. cbn [app].
+  replace (S (length A) - length A)%nat with 1%nat by lia. reflexivity.
+Qed.
+
+Lemma nth_error_bits l A db C j : l = A ++ db :: C -> (j < 8)%nat ->
+  nth_error (bits_of_bytes l) (8 * length A + j) = Some (nth j (byte_bits db) false).
+Proof.
+  intros E Hj. subst l. rewrite bits_app, bits_cons.
+  rewrite nth_error_app2 by (rewrite bits_length; lia).
+  rewrite bits_length. replace (8 * length A + j - 8 * length A)%nat with j by lia.
+  rewrite nth_error_app1 by (rewrite byte_bits_length; lia).
+  apply nth_error_nth'. rewrite byte_bits_length. exact Hj.
+Qed.
+
+(** * the update relation: [dst'] is [dst] with the bits [xs] spliced in at [p] *)
+Definition upd (dst dst' : list N) (p : nat) (xs : bits) : Prop :=
+  bits_of_bytes dst' = splice p xs (bits_of_bytes dst)
+  /\ length dst' = length dst /\ Forall byte dst'.
+
+Lemma upd_refl dst p : Forall byte dst -> upd dst dst p [].
+Proof. intros H. unfold upd. rewrite splice_nil. auto. Qed.
+
+Lemma upd_trans dst d1 d2 p xs ys :
+  (p + length xs + length ys <= 8 * length dst)%nat ->
+  upd dst d1 p xs -> upd d1 d2 (p + length xs) ys -> upd dst d2 p (xs ++ ys).
+Proof.
+  intros H (E1 & L1 & F1) (E2 & L2 & F2). unfold upd. split; [|split; [congruence|assumption]].
+  rewrite E2, E1. apply splice_consec. rewrite bits_length. exact H.
+Qed.
+
+Lemma upd_byte A db C nb j xs :
+  Forall byte (A ++ db :: C) -> nb < 256 ->
+  byte_bits nb = splice j xs (byte_bits db) -> (j + length xs <= 8)%nat ->
+  upd (A ++ db :: C) (A ++ nb :: C) (8 * length A + j) xs.
+Proof.
+  intros F Hnb E Hj. unfold upd. split; [|split].
+  - rewrite !bits_app, !bits_cons, E, <- (bits_length A). symmetry. apply splice_mid.
+    rewrite byte_bits_length. exact Hj.
+  - rewrite !app_length. reflexivity.
+  - apply Forall_app in F. destruct F as [FA FC]. apply Forall_cons_iff in FC. destruct FC as [_ FC].
+    apply Forall_app. split; [assumption|]. constructor; assumption.
+Qed.
+
+Lemma Forall_mid (P : N -> Prop) A db C : Forall P (A ++ db :: C) -> P db.
+Proof.
+  intros F. apply Forall_app in F. destruct F as [_ F]. apply Forall_cons_iff in F. tauto.
+Qed.
+
+(** * the bitwise loop *)
+Lemma copy_loop_upd n : forall k src sp dst dp,
+  Forall byte src -> Forall byte dst ->
+  sp + k + N.of_nat n <= 8 * blen src -> dp + k + N.of_nat n <= 8 * blen dst ->
+  exists dst', copy_loop n k src sp dst dp = Ok dst' /\
+    upd dst dst' (N.to_nat (dp + k)) (slice (bits_of_bytes src) (N.to_nat (sp + k)) n).
+Proof.
+  induction n as [|n IH]; intros k src sp dst dp Fs Fd Bs Bd.
+  - exists dst. split; [reflexivity|]. unfold slice. cbn [firstn]. apply upd_refl. exact Fd.
+  - cbn [copy_loop]. unfold BYTE_LEN.
+    set (ps := sp + k). set (pd := dp + k).
+    destruct (byte_split src (ps / 8)) as (As & sb & Cs & Es & Ls); [unfold blen in *; lia|].
+    destruct (byte_split dst (pd / 8)) as (Ad & db & Cd & Ed & Ld); [unfold blen in *; lia|].
+    rewrite (getb_at _ _ _ _ _ Es Ls). cbn [bind].
+    rewrite (getb_at _ _ _ _ _ Ed Ld). cbn [bind].
+    assert (Hsb : sb < 256) by (rewrite Es in Fs; exact (Forall_mid _ _ _ _ Fs)).
+    assert (Hdb : db < 256) by (rewrite Ed in Fd; exact (Forall_mid _ _ _ _ Fd)).
+    assert (Hjs : ps mod 8 < 8) by lia. assert (Hjd : pd mod 8 < 8) by lia.
+    destruct (bit_step_spec sb (ps mod 8) true Hsb Hjs) as (_ & _ & Ebit & _).
+    cbv zeta in Ebit. rewrite Ebit.
+    set (v := nth (N.to_nat (ps mod 8)) (byte_bits sb) false).
+    destruct (bit_step_spec db (pd mod 8) v Hdb Hjd) as (Hnb & Enb & _ & _).
+    cbv zeta in Hnb, Enb.
+    set (nb := if v then N.lor db (2 ^ (8 - pd mod 8 - 1)) else N.land db (255 - 2 ^ (8 - pd mod 8 - 1))) in *.
+    rewrite (setb_at _ _ _ _ _ nb Ed Ld). cbn [bind].
+    assert (U1 : upd dst (Ad ++ nb :: Cd) (N.to_nat pd) [v]).
+    { rewrite Ed. replace (N.to_nat pd) with (8 * length Ad + N.to_nat (pd mod 8))%nat by lia.
+      apply upd_byte; [rewrite <- Ed; exact Fd|exact Hnb|exact Enb|cbn [length]; lia]. }
+    destruct U1 as (E1 & L1 & F1).
+    destruct (IH (k + 1) src sp (Ad ++ nb :: Cd) dp Fs F1) as (dst' & Ec & U2).
+    { lia. } { unfold blen in *. rewrite L1. lia. }
+    exists dst'. split; [exact Ec|].
+    rewrite (slice_S _ _ _ v).
+    2:{ replace (N.to_nat ps) with (8 * length As + N.to_nat (ps mod 8))%nat by lia.
+        apply nth_error_bits with (C := Cs); [exact Es|lia]. }
+    change (v :: ?t) with ([v] ++ t).
+    apply upd_trans with (d1 := Ad ++ nb :: Cd).
+    + cbn [length]. rewrite slice_length by (rewrite bits_length; unfold blen in *; lia).
+      unfold blen in *. lia.
+    + unfold upd. auto.
+    + cbn [length].
+      replace (N.to_nat pd + 1)%nat with (N.to_nat (dp + (k + 1))) by lia.
+      replace (S (N.to_nat ps)) with (N.to_nat (sp + (k + 1))) by lia. exact U2.
+Qed.
+
+Lemma uadd_ok m a b : a + b < two64 -> uadd m a b = Ok (a + b).
+Proof. intros H. unfold uadd. destruct (N.ltb_spec (a + b) two64); [reflexivity|lia]. Qed.
+
+Lemma bit_string_copy_exact m src sp dst dp len :
+  Forall byte src -> Forall byte dst ->
+  sp + len < two64 -> dp + len < two64 ->
+  sp + len <= 8 * blen src -> dp + len <= 8 * blen dst ->
+  exists dst', bit_string_copy m src sp dst dp len = Ok dst' /\
+    upd dst dst' (N.to_nat dp) (slice (bits_of_bytes src) (N.to_nat sp) (N.to_nat len)).
+Proof.
+  intros Fs Fd Os Od Bs Bd. unfold bit_string_copy, BYTE_LEN.
+  rewrite (uadd_ok m dp len Od). cbn [bind].
+  destruct (N.ltb_spec (blen dst * 8) (dp + len)); [lia|].
+  rewrite (uadd_ok m sp len Os). cbn [bind].
+  destruct (N.ltb_spec (blen src * 8) (sp + len)); [lia|].
+  destruct (copy_loop_upd (N.to_nat len) 0 src sp dst dp Fs Fd) as (dst' & E & U); [lia|lia|].
+  exists dst'. split; [exact E|]. rewrite !N.add_0_r in U. exact U.
+Qed.
+
+Lemma bitwise_exact m src sp dst dp len :
+  Forall (fun b => b < 256) src -> Forall (fun b => b < 256) dst ->
+  sp + len < two64 -> dp + len < two64 ->
+  sp + len <= 8 * blen src -> dp + len <= 8 * blen dst ->
+  exists dst', bit_string_copy m src sp dst dp len = Ok dst' /\
+    bits_of_bytes dst' = splice (N.to_nat dp) (slice (bits_of_bytes src) (N.to_nat sp) (N.to_nat len)) (bits_of_bytes dst)
+    /\ length dst' = length dst /\ Forall (fun b => b < 256) dst'.
+Proof. exact (bit_string_copy_exact m src sp dst dp len). Qed.
+
+Lemma bitwise_short m src sp dst dp len :
+  sp + len < two64 -> dp + len < two64 ->
+  (8 * blen dst < dp + len -> bit_string_copy m src sp dst dp len = Err E_INSUFFICIENT_DST)
+  /\ (dp + len <= 8 * blen dst -> 8 * blen src < sp + len ->
+      bit_string_copy m src sp dst dp len = Err E_INSUFFICIENT_SRC).
+Proof.
+  intros Os Od. unfold bit_string_copy, BYTE_LEN.
+  rewrite (uadd_ok m dp len Od), (uadd_ok m sp len Os). cbn [bind]. split.
+  - intros H. destruct (N.ltb_spec (blen dst * 8) (dp + len)); [reflexivity|lia].
+  - intros H1 H2. destruct (N.ltb_spec (blen dst * 8) (dp + len)); [lia|]. cbn [bind].
+    destruct (N.ltb_spec (blen src * 8) (sp + len)); [reflexivity|lia].
+Qed.
+
+(** the bitwise loop never leaves the Result world when the ranges fit (no byte hypothesis) *)
+Lemma copy_loop_total n : forall k src sp dst dp,
+  sp + k + N.of_nat n <= 8 * blen src -> dp + k + N.of_nat n <= 8 * blen dst ->
+  exists dst', copy_loop n k src sp dst dp = Ok dst' /\ length dst' = length dst.
+Proof.
+  induction n as [|n IH]; intros k src sp dst dp Bs Bd.
+  - exists dst. split; reflexivity.
+  - cbn [copy_loop]. unfold BYTE_LEN.
+    destruct (byte_split src ((sp + k) / 8)) as (As & sb & Cs & Es & Ls); [unfold blen in *; lia|].
+    destruct (byte_split dst ((dp + k) / 8)) as (Ad & db & Cd & Ed & Ld); [unfold blen in *; lia|].
+    rewrite (getb_at _ _ _ _ _ Es Ls). cbn [bind].
+    rewrite (getb_at _ _ _ _ _ Ed Ld). cbn [bind].
+    match goal with |- context [setb dst _ ?x] => set (nb := x) end.
+    rewrite (setb_at _ _ _ _ _ nb Ed Ld). cbn [bind].
+    assert (L1 : length (Ad ++ nb :: Cd) = length dst) by (rewrite Ed, !app_length; reflexivity).
+    destruct (IH (k + 1) src sp (Ad ++ nb :: Cd) dp) as (dst' & Ec & L2).
+    { lia. } { unfold blen in *. rewrite L1. lia. }
+    exists dst'. split; [exact Ec|congruence].
+Qed.
+
+Lemma bitwise_no_panic m src sp dst dp len :
+  sp + len < two64 -> dp + len < two64 ->
+  is_panic (bit_string_copy m src sp dst dp len) = false.
+Proof.
+  intros Os Od. unfold bit_string_copy, BYTE_LEN.
+  rewrite (uadd_ok m dp len Od), (uadd_ok m sp len Os). cbn [bind].
+  destruct (N.ltb_spec (blen dst * 8) (dp + len)); [reflexivity|]. cbn [bind].
+  destruct (N.ltb_spec (blen src * 8) (sp + len)); [reflexivity|].
+  destruct (copy_loop_total (N.to_nat len) 0 src sp dst dp) as (dst' & E & _); [lia|lia|].
+  rewrite E. reflexivity.
+Qed.
+
+(** * single-bit operations of the tuple carriers *)
+Lemma write_bit_spec dst pos bit : Forall byte dst ->
+  (pos < 8 * blen dst ->
+     exists dst', slice_write_bit dst pos bit = Ok (dst', pos + 1) /\ upd dst dst' (N.to_nat pos) [bit])
+  /\ (8 * blen dst <= pos -> slice_write_bit dst pos bit = Err E_END_OF_STREAM).
+Proof.
+  intros Fd. unfold slice_write_bit, BYTE_LEN. split; intros H.
+  - destruct (N.ltb_spec (blen dst * 8) (pos + 1)); [lia|].
+    destruct (byte_split dst (pos / 8)) as (Ad & db & Cd & Ed & Ld); [unfold blen in *; lia|].
+    rewrite (getb_at _ _ _ _ _ Ed Ld). cbn [bind].
+    assert (Hdb : db < 256) by (rewrite Ed in Fd; exact (Forall_mid _ _ _ _ Fd)).
+    assert (Hjd : pos mod 8 < 8) by lia.
+    destruct (bit_step_spec db (pos mod 8) bit Hdb Hjd) as (Hnb & Enb & _ & Em).
+    cbv zeta in Hnb, Enb, Em. rewrite Em.
+    set (nb := if bit then N.lor db (2 ^ (8 - pos mod 8 - 1)) else N.land db (255 - 2 ^ (8 - pos mod 8 - 1))) in *.
+    rewrite (setb_at _ _ _ _ _ nb Ed Ld). cbn [bind].
+    eexists. split; [reflexivity|].
+    rewrite Ed. replace (N.to_nat pos) with (8 * length Ad + N.to_nat (pos mod 8))%nat by lia.
+    apply upd_byte; [rewrite <- Ed; exact Fd|exact Hnb|exact Enb|cbn [length]; lia].
+  - destruct (N.ltb_spec (blen dst * 8) (pos + 1)); [reflexivity|lia].
+Qed.
+
+Lemma read_bit_spec src pos : Forall byte src ->
+  (pos < 8 * blen src ->
+     slice_read_bit src pos = Ok (nth (N.to_nat pos) (bits_of_bytes src) false, pos + 1)
+     /\ slice (bits_of_bytes src) (N.to_nat pos) 1 = [nth (N.to_nat pos) (bits_of_bytes src) false])
+  /\ (8 * blen src <= pos -> slice_read_bit src pos = Err E_END_OF_STREAM).
+Proof.
+  intros Fs. unfold slice_read_bit, BYTE_LEN. split; intros H.
+  - destruct (N.leb_spec (blen src * 8) pos); [lia|].
+    destruct (byte_split src (pos / 8)) as (As & sb & Cs & Es & Ls); [unfold blen in *; lia|].
+    rewrite (getb_at _ _ _ _ _ Es Ls). cbn [bind].
+    assert (Hsb : sb < 256) by (rewrite Es in Fs; exact (Forall_mid _ _ _ _ Fs)).
+    assert (Hjs : pos mod 8 < 8) by lia.
+    destruct (bit_step_spec sb (pos mod 8) true Hsb Hjs) as (_ & _ & Ebit & Em).
+    cbv zeta in Ebit, Em. rewrite Em, Ebit.
+    assert (Hn : nth_error (bits_of_bytes src) (N.to_nat pos)
+                 = Some (nth (N.to_nat (pos mod 8)) (byte_bits sb) false)).
+    { replace (N.to_nat pos) with (8 * length As + N.to_nat (pos mod 8))%nat by lia.
+      apply nth_error_bits with (C := Cs); [exact Es|lia]. }
+    rewrite (nth_error_nth _ _ false Hn). split; [reflexivity|].
+    rewrite (slice_S _ _ _ _ Hn). unfold slice. reflexivity.
+  - destruct (N.leb_spec (blen src * 8) pos); [reflexivity|lia].
+Qed.
+
+Lemma bit_ops buf pos : Forall (fun b => b < 256) buf ->
+  (forall bit,
+     (pos < 8 * blen buf ->
+        exists buf', slice_write_bit buf pos bit = Ok (buf', pos + 1)
+          /\ bits_of_bytes buf' = splice (N.to_nat pos) [bit] (bits_of_bytes buf)
+          /\ length buf' = length buf /\ Forall (fun b => b < 256) buf')
+     /\ (8 * blen buf <= pos -> slice_write_bit buf pos bit = Err E_END_OF_STREAM))
+  /\ (pos < 8 * blen buf ->
+        exists b, slice_read_bit buf pos = Ok (b, pos + 1)
+          /\ [b] = slice (bits_of_bytes buf) (N.to_nat pos) 1)
+  /\ (8 * blen buf <= pos -> slice_read_bit buf pos = Err E_END_OF_STREAM).
+Proof.
+  intros F. split; [|split].
+  - intros bit. exact (write_bit_spec buf pos bit F).
+  - intros H. destruct (read_bit_spec buf pos F) as [R _]. destruct (R H) as [R1 R2].
+    eexists. split; [exact R1|]. symmetry. exact R2.
+  - destruct (read_bit_spec buf pos F) as [_ R]. exact R.
+Qed.
+
+(** * the bulked copy *)
+Lemma bits_firstn n : forall l, bits_of_bytes (firstn n l) = firstn (8 * n) (bits_of_bytes l).
+Proof.
+  induction n as [|n IH]; intros l; [reflexivity|].
+  destruct l as [|b l]; [reflexivity|].
+  cbn [firstn]. rewrite !bits_cons, IH.
+  replace (8 * S n)%nat with (length (byte_bits b) + 8 * n)%nat by (rewrite byte_bits_length; lia).
+  rewrite firstn_app_2. reflexivity.
+Qed.
+
+Lemma bits_skipn n : forall l, bits_of_bytes (skipn n l) = skipn (8 * n) (bits_of_bytes l).
+Proof.
+  induction n as [|n IH]; intros l; [reflexivity|].
+  destruct l as [|b l]; [reflexivity|].
+  cbn [skipn]. rewrite bits_cons, IH.
+  replace (8 * S n)%nat with (8 + 8 * n)%nat by lia.
+  rewrite <- skipn_add. reflexivity.
+Qed.
+
+Lemma Forall_firstn {A} (P : A -> Prop) n l : Forall P l -> Forall P (firstn n l).
+Proof. intros H. rewrite <- (firstn_skipn n l) in H. apply Forall_app in H. tauto. Qed.
+Lemma Forall_skipn {A} (P : A -> Prop) n l : Forall P l -> Forall P (skipn n l).
+Proof. intros H. rewrite <- (firstn_skipn n l) in H. apply Forall_app in H. tauto. Qed.
+
+Lemma upd_trans' dst d1 d2 p q xs ys zs :
+  upd dst d1 p xs -> upd d1 d2 q ys -> q = (p + length xs)%nat -> zs = xs ++ ys ->
+  (p + length xs + length ys <= 8 * length dst)%nat -> upd dst d2 p zs.
+Proof. intros U1 U2 -> -> H. exact (upd_trans dst d1 d2 p xs ys H U1 U2). Qed.
+
+Lemma copy_from_slice_upd src si dst di n :
+  Forall byte src -> Forall byte dst -> si + n <= blen src -> di + n <= blen dst ->
+  exists dst', copy_from_slice src si dst di n = Ok dst' /\
+    upd dst dst' (8 * N.to_nat di) (slice (bits_of_bytes src) (8 * N.to_nat si) (8 * N.to_nat n)).
+Proof.
+  intros Fs Fd Bs Bd. unfold copy_from_slice.
+  destruct (N.ltb_spec (blen src) (si + n)); [lia|].
+  destruct (N.ltb_spec (blen dst) (di + n)); [lia|]. cbn [orb].
+  eexists. split; [reflexivity|]. unfold upd. split; [|split].
+  - rewrite !bits_app, bits_firstn, bits_firstn, !bits_skipn. unfold splice, slice.
+    f_equal. f_equal. f_equal.
+    rewrite firstn_length, skipn_length, bits_length. unfold blen in *. lia.
+  - rewrite !app_length, !firstn_length, !skipn_length. unfold blen in *. lia.
+  - apply Forall_app. split; [apply Forall_firstn; exact Fd|].
+    apply Forall_app. split; [apply Forall_firstn, Forall_skipn; exact Fs|apply Forall_skipn; exact Fd].
+Qed.
+
+Lemma slice_byte l A b C : l = A ++ b :: C ->
+  slice (bits_of_bytes l) (8 * length A) 8 = byte_bits b.
+Proof.
+  intros E. subst l. unfold slice. rewrite bits_app, bits_cons, <- (bits_length A).
+  rewrite skipn_app, skipn_all, Nat.sub_diag. reflexivity.
+Qed.
+
+Lemma unaligned_loop_upd n : forall index src si dst di off,
+  Forall byte src -> Forall byte dst -> off < 8 ->
+  index + si + N.of_nat n <= blen src -> index + di + N.of_nat n + 1 <= blen dst ->
+  exists dst', unaligned_loop n index src si dst di off = Ok dst' /\
+    upd dst dst' (N.to_nat (8 * (index + di) + off))
+        (slice (bits_of_bytes src) (N.to_nat (8 * (index + si))) (8 * n)).
+Proof.
+  induction n as [|n IH]; intros index src si dst di off Fs Fd Ho Bs Bd.
+  - exists dst. split; [reflexivity|]. unfold slice. cbn [firstn Nat.mul]. apply upd_refl. exact Fd.
+  - cbn [unaligned_loop]. unfold BYTE_LEN.
+    destruct (byte_split src (index + si)) as (As & b & Cs & Es & Ls); [unfold blen in *; lia|].
+    destruct (byte_split dst (index + di)) as (A & d0 & C & Ed & Ld); [unfold blen in *; lia|].
+    destruct C as [|d1 C].
+    { exfalso. rewrite Ed in Bd. unfold blen in Bd. rewrite app_length in Bd. cbn [length] in Bd. lia. }
+    rewrite (getb_at _ _ _ _ _ Es Ls). cbn [bind].
+    rewrite (getb_at _ _ _ _ _ Ed Ld). cbn [bind].
+    assert (Hb : b < 256) by (rewrite Es in Fs; exact (Forall_mid _ _ _ _ Fs)).
+    assert (Hd0 : d0 < 256) by (rewrite Ed in Fd; exact (Forall_mid _ _ _ _ Fd)).
+    assert (Hd1 : d1 < 256).
+    { rewrite Ed in Fd. apply Forall_app in Fd. destruct Fd as [_ Fd].
+      apply Forall_cons_iff in Fd. destruct Fd as [_ Fd]. apply Forall_cons_iff in Fd. tauto. }
+    destruct (ul_spec off d0 b Ho Hd0 Hb) as (Hl & _ & El & _).
+    destruct (ul_spec off d1 b Ho Hd1 Hb) as (_ & Hr & _ & Er).
+    cbv zeta in Hl, El, Hr, Er.
+    set (l := N.lor (N.land d0 ((255 * 2 ^ (8 - off)) mod 256)) (b / 2 ^ off)) in *.
+    set (r := N.lor (N.land d1 (255 / 2 ^ off)) ((b * 2 ^ (8 - off)) mod 256)) in *.
+    rewrite (setb_at _ _ _ _ _ l Ed Ld). cbn [bind].
+    assert (Ed1 : A ++ l :: d1 :: C = (A ++ [l]) ++ d1 :: C) by (rewrite <- app_assoc; reflexivity).
+    assert (Ld1 : length (A ++ [l]) = N.to_nat (index + di + 1)) by (rewrite app_length; cbn [length]; lia).
+    rewrite (getb_at _ _ _ _ _ Ed1 Ld1). cbn [bind]. fold r.
+    rewrite (setb_at _ _ _ _ _ r Ed1 Ld1). cbn [bind].
+    assert (U1 : upd dst (A ++ l :: d1 :: C) (8 * length A + N.to_nat off)
+                     (firstn (8 - N.to_nat off) (byte_bits b))).
+    { rewrite Ed. apply upd_byte; [rewrite <- Ed; exact Fd|exact Hl|exact El|].
+      rewrite firstn_length, byte_bits_length. lia. }
+    assert (U2 : upd (A ++ l :: d1 :: C) ((A ++ [l]) ++ r :: C) (8 * length (A ++ [l]) + 0)
+                     (skipn (8 - N.to_nat off) (byte_bits b))).
+    { rewrite Ed1. destruct U1 as (_ & _ & F1). rewrite Ed1 in F1.
+      apply upd_byte; [exact F1|exact Hr|exact Er|].
+      rewrite skipn_length, byte_bits_length. lia. }
+    assert (U12 : upd dst ((A ++ [l]) ++ r :: C) (8 * length A + N.to_nat off) (byte_bits b)).
+    { apply (upd_trans' _ _ _ _ _ _ _ _ U1 U2).
+      - rewrite firstn_length, byte_bits_length, app_length. cbn [length]. lia.
+      - symmetry. apply firstn_skipn.
+      - rewrite firstn_length, skipn_length, byte_bits_length. rewrite Ed, app_length. cbn [length]. lia. }
+    destruct U12 as (E12 & L12 & F12).
+    destruct (IH (index + 1) src si ((A ++ [l]) ++ r :: C) di off Fs F12 Ho) as (dst' & Ec & U3).
+    { lia. } { unfold blen in *. rewrite L12. lia. }
+    exists dst'. split; [exact Ec|].
+    replace (N.to_nat (8 * (index + di) + off)) with (8 * length A + N.to_nat off)%nat by lia.
+    apply (upd_trans' dst ((A ++ [l]) ++ r :: C) dst' _ _ (byte_bits b) _ _ (conj E12 (conj L12 F12)) U3).
+    + rewrite byte_bits_length. lia.
+    + replace (8 * S n)%nat with (8 + 8 * n)%nat by lia. rewrite slice_app. f_equal.
+      * replace (N.to_nat (8 * (index + si))) with (8 * length As)%nat by lia.
+        apply slice_byte with (C := Cs). exact Es.
+      * f_equal. lia.
+    + rewrite byte_bits_length, slice_length by (rewrite bits_length; unfold blen in *; lia).
+      unfold blen in *. lia.
+Qed.
+
+Lemma bulk_exact_upd m src sp dst dp len :
+  Forall byte src -> Forall byte dst ->
+  sp + len < two64 -> dp + len < two64 ->
+  sp + len <= 8 * blen src -> dp + len <= 8 * blen dst ->
+  exists dst', bit_string_copy_bulked m src sp dst dp len = Ok dst' /\
+    upd dst dst' (N.to_nat dp) (slice (bits_of_bytes src) (N.to_nat sp) (N.to_nat len)).
+Proof.
+  intros Fs Fd Os Od Bs Bd. unfold bit_string_copy_bulked, BYTE_LEN.
+  destruct (N.leb_spec len (8 * 2)) as [Hsm|Hbig]; [apply bit_string_copy_exact; assumption|].
+  rewrite (uadd_ok m dp len Od). cbn [bind].
+  destruct (N.ltb_spec (blen dst * 8) (dp + len)); [lia|].
+  rewrite (uadd_ok m sp len Os). cbn [bind].
+  destruct (N.ltb_spec (blen src * 8) (sp + len)); [lia|].
+  cbv zeta.
+  remember ((8 - sp mod 8) mod 8) as head eqn:Hhead.
+  set (s := bits_of_bytes src).
+  assert (Ls : length s = (8 * length src)%nat) by apply bits_length.
+  (* head *)
+  assert (S1 : exists d1,
+     (if head =? 0 then Ok dst else bit_string_copy m src sp dst dp (N.min head len)) = Ok d1
+     /\ upd dst d1 (N.to_nat dp) (slice s (N.to_nat sp) (N.to_nat head))).
+  { destruct (N.eqb_spec head 0) as [E|E].
+    - exists dst. split; [reflexivity|]. rewrite E. apply upd_refl. exact Fd.
+    - replace (N.min head len) with head by lia. apply bit_string_copy_exact; try assumption; lia. }
+  destruct S1 as (d1 & E1 & U1). rewrite E1. cbn [bind].
+  replace (negb (head =? 0) && (len <=? head)) with false
+    by (symmetry; apply andb_false_iff; right; apply N.leb_gt; lia).
+  remember (sp + head) as sp' eqn:Hsp'. remember (dp + head) as dp' eqn:Hdp'.
+  remember (len - head) as len' eqn:Hlen'. remember (len' / 8) as nbytes eqn:Hnb.
+  assert (L1 : length d1 = length dst) by (destruct U1 as (_ & L & _); exact L).
+  assert (F1 : Forall byte d1) by (destruct U1 as (_ & _ & F); exact F).
+  (* whole bytes *)
+  assert (S2 : exists d2,
+     (if dp' mod 8 =? 0 then copy_from_slice src (sp' / 8) d1 (dp' / 8) nbytes
+      else unaligned_loop (N.to_nat nbytes) 0 src (sp' / 8) d1 (dp' / 8) (dp' mod 8)) = Ok d2
+     /\ upd d1 d2 (N.to_nat dp') (slice s (N.to_nat sp') (8 * N.to_nat nbytes))).
+  { destruct (N.eqb_spec (dp' mod 8) 0) as [E|E].
+    - destruct (copy_from_slice_upd src (sp' / 8) d1 (dp' / 8) nbytes Fs F1) as (d2 & E2 & U2).
+      { unfold blen in *. lia. } { unfold blen in *. rewrite L1. lia. }
+      exists d2. split; [exact E2|].
+      replace (N.to_nat dp') with (8 * N.to_nat (dp' / 8))%nat by lia.
+      replace (N.to_nat sp') with (8 * N.to_nat (sp' / 8))%nat by lia. exact U2.
+    - destruct (unaligned_loop_upd (N.to_nat nbytes) 0 src (sp' / 8) d1 (dp' / 8) (dp' mod 8) Fs F1)
+        as (d2 & E2 & U2).
+      { lia. } { unfold blen in *. lia. } { unfold blen in *. rewrite L1. lia. }
+      exists d2. split; [exact E2|].
+      replace (N.to_nat dp') with (N.to_nat (8 * (0 + dp' / 8) + dp' mod 8)) by lia.
+      replace (N.to_nat sp') with (N.to_nat (8 * (0 + sp' / 8))) by lia. exact U2. }
+  destruct S2 as (d2 & E2 & U2). rewrite E2. cbn [bind].
+  assert (L2 : length d2 = length dst) by (destruct U2 as (_ & L & _); congruence).
+  assert (F2 : Forall byte d2) by (destruct U2 as (_ & _ & F); exact F).
+  (* tail *)
+  assert (S3 : exists d3,
+     (if len' mod 8 =? 0 then Ok d2
+      else bit_string_copy m src (sp' + nbytes * 8) d2 (dp' + nbytes * 8) (len' mod 8)) = Ok d3
+     /\ upd d2 d3 (N.to_nat (dp' + nbytes * 8)) (slice s (N.to_nat (sp' + nbytes * 8)) (N.to_nat (len' mod 8)))).
+  { destruct (N.eqb_spec (len' mod 8) 0) as [E|E].
+    - exists d2. split; [reflexivity|]. rewrite E. apply upd_refl. exact F2.
+    - apply bit_string_copy_exact; try assumption; unfold blen in *; try rewrite L2; lia. }
+  destruct S3 as (d3 & E3 & U3). exists d3. split; [exact E3|].
+  assert (U12 : upd dst d2 (N.to_nat dp) (slice s (N.to_nat sp) (N.to_nat head + 8 * N.to_nat nbytes))).
+  { apply (upd_trans' _ _ _ _ _ _ _ _ U1 U2).
+    - rewrite slice_length by (unfold blen in *; lia). lia.
+    - rewrite slice_app. f_equal. f_equal. lia.
+    - rewrite !slice_length by (unfold blen in *; lia). unfold blen in *. lia. }
+  apply (upd_trans' _ _ _ _ _ _ _ _ U12 U3).
+  - rewrite slice_length by (unfold blen in *; lia). lia.
+  - replace (N.to_nat len) with ((N.to_nat head + 8 * N.to_nat nbytes) + N.to_nat (len' mod 8))%nat by lia.
+    rewrite slice_app. f_equal. f_equal. lia.
+  - rewrite !slice_length by (unfold blen in *; lia). unfold blen in *. lia.
+Qed.
+
+Lemma bulk_exact m src sp dst dp len :
+  Forall (fun b => b < 256) src -> Forall (fun b => b < 256) dst ->
+  sp + len < two64 -> dp + len < two64 ->
+  sp + len <= 8 * blen src -> dp + len <= 8 * blen dst ->
+  exists dst', bit_string_copy_bulked m src sp dst dp len = Ok dst' /\
+    bits_of_bytes dst' = splice (N.to_nat dp) (slice (bits_of_bytes src) (N.to_nat sp) (N.to_nat len)) (bits_of_bytes dst)
+    /\ length dst' = length dst /\ Forall (fun b => b < 256) dst'.
+Proof. exact (bulk_exact_upd m src sp dst dp len). Qed.
+
+Lemma bulk_short m src sp dst dp len :
+  sp + len < two64 -> dp + len < two64 ->
+  (8 * blen dst < dp + len -> bit_string_copy_bulked m src sp dst dp len = Err E_INSUFFICIENT_DST)
+  /\ (dp + len <= 8 * blen dst -> 8 * blen src < sp + len ->
+      bit_string_copy_bulked m src sp dst dp len = Err E_INSUFFICIENT_SRC).
+Proof.
+  intros Os Od. unfold bit_string_copy_bulked, BYTE_LEN.
+  destruct (N.leb_spec len (8 * 2)) as [Hsm|Hbig]; [apply bitwise_short; assumption|].
+  rewrite (uadd_ok m dp len Od), (uadd_ok m sp len Os). cbn [bind]. split.
+  - intros H. destruct (N.ltb_spec (blen dst * 8) (dp + len)); [reflexivity|lia].
+  - intros H1 H2. destruct (N.ltb_spec (blen dst * 8) (dp + len)); [lia|]. cbn [bind].
+    destruct (N.ltb_spec (blen src * 8) (sp + len)); [reflexivity|lia].
+Qed.
+
+Lemma bulk_no_panic m src sp dst dp len :
+  Forall (fun b => b < 256) src -> Forall (fun b => b < 256) dst ->
+  sp + len < two64 -> dp + len < two64 ->
+  is_panic (bit_string_copy_bulked m src sp dst dp len) = false.
+Proof.
+  intros Fs Fd Os Od. destruct (bulk_short m src sp dst dp len Os Od) as [Sd Ss].
+  destruct (N.lt_ge_cases (8 * blen dst) (dp + len)) as [H1|H1]; [rewrite (Sd H1); reflexivity|].
+  destruct (N.lt_ge_cases (8 * blen src) (sp + len)) as [H2|H2]; [rewrite (Ss H1 H2); reflexivity|].
+  destruct (bulk_exact_upd m src sp dst dp len Fs Fd Os Od H2 H1) as (dst' & E & _).
+  rewrite E. reflexivity.
+Qed.
+
+(** * multi-bit operations of the tuple carriers *)
+Lemma write_bits_exact m dst pos src soff slen :
+  Forall (fun b => b < 256) src -> Forall (fun b => b < 256) dst ->
+  soff + slen < two64 -> pos + slen < two64 ->
+  soff + slen <= 8 * blen src -> pos + slen <= 8 * blen dst ->
+  exists dst', slice_write_bits m dst pos src soff slen = Ok (dst', pos + slen) /\
+    bits_of_bytes dst' = splice (N.to_nat pos) (slice (bits_of_bytes src) (N.to_nat soff) (N.to_nat slen)) (bits_of_bytes dst)
+    /\ length dst' = length dst /\ Forall (fun b => b < 256) dst'.
+Proof.
+  intros Fs Fd Os Od Bs Bd. unfold slice_write_bits.
+  destruct (bulk_exact_upd m src soff dst pos slen Fs Fd Os Od Bs Bd) as (dst' & E & U).
+  rewrite E. cbn [bind]. rewrite (uadd_ok m pos slen Od). cbn [bind].
+  exists dst'. split; [reflexivity|exact U].
+Qed.
+
+Lemma read_bits_mirror m src pos dst doff dlen :
+  Forall (fun b => b < 256) src -> Forall (fun b => b < 256) dst ->
+  pos + dlen < two64 -> doff + dlen < two64 ->
+  pos + dlen <= 8 * blen src -> doff + dlen <= 8 * blen dst ->
+  exists dst', slice_read_bits m src pos dst doff dlen = Ok (dst', pos + dlen) /\
+    bits_of_bytes dst' = splice (N.to_nat doff) (slice (bits_of_bytes src) (N.to_nat pos) (N.to_nat dlen)) (bits_of_bytes dst)
+    /\ length dst' = length dst /\ Forall (fun b => b < 256) dst'.
+Proof.
+  intros Fs Fd Os Od Bs Bd. unfold slice_read_bits.
+  destruct (bulk_exact_upd m src pos dst doff dlen Fs Fd Os Od Bs Bd) as (dst' & E & U).
+  rewrite E. cbn [bind]. rewrite (uadd_ok m pos dlen Os). cbn [bind].
+  exists dst'. split; [reflexivity|exact U].
+Qed.
+
+(** * BitBuffer *)
+Definition padding_zero (b : bitbuffer) : Prop :=
+  forall i, (N.to_nat (bb_wpos b) <= i)%nat -> nth i (bits_of_bytes (bb_buf b)) false = false.
+
+Definition bb_inv (b : bitbuffer) : Prop :=
+  blen (bb_buf b) = (bb_wpos b + 7) / 8 /\ Forall byte (bb_buf b) /\ padding_zero b.
+
+Lemma bb_inv_empty : bb_inv bb_empty.
+Proof.
+  unfold bb_inv, padding_zero. cbn [bb_empty bb_buf bb_wpos]. split; [reflexivity|]. split; [constructor|].
+  intros i _. destruct i; reflexivity.
+Qed.
+
+Lemma Forall_repeat0 k : Forall byte (repeat 0 k).
+Proof. induction k; cbn [repeat]; constructor; [reflexivity|assumption]. Qed.
+
+Lemma bits_repeat0 k : bits_of_bytes (repeat 0 k) = repeat false (8 * k).
+Proof.
+  induction k as [|k IH]; [reflexivity|].
+  cbn [repeat]. rewrite bits_cons, IH. replace (8 * S k)%nat with (8 + 8 * k)%nat by lia.
+  reflexivity.
+Qed.
+
+Lemma nth_skipn_add {A} n : forall (l : list A) i d, nth i (skipn n l) d = nth (n + i) l d.
+Proof.
+  induction n as [|n IH]; intros l i d; [reflexivity|].
+  destruct l as [|x l]; [destruct i; reflexivity|]. cbn [skipn plus nth]. apply IH.
+Qed.
+
+(* writing [X] at the write position of a zero-extended buffer: padding stays zero and the
+   written prefix grows by exactly [X] *)
+Lemma write_preserves buf k wpos buf' X :
+  (forall i, (wpos <= i)%nat -> nth i (bits_of_bytes buf) false = false) ->
+  (wpos <= 8 * length buf)%nat ->
+  upd (buf ++ repeat 0 k) buf' wpos X ->
+  (forall i, (wpos + length X <= i)%nat -> nth i (bits_of_bytes buf') false = false)
+  /\ firstn (wpos + length X) (bits_of_bytes buf') = firstn wpos (bits_of_bytes buf) ++ X.
+Proof.
+  intros Pz Hw (E & _ & _). rewrite E, bits_app, bits_repeat0. unfold splice.
+  set (l := bits_of_bytes buf) in *.
+  assert (Ll : length l = (8 * length buf)%nat) by apply bits_length.
+  assert (Lf : length (firstn wpos (l ++ repeat false (8 * k))) = wpos).
+  { rewrite firstn_length, app_length. lia. }
+  split.
+  - intros i Hi.
+    rewrite app_nth2 by lia. rewrite app_nth2 by lia. rewrite nth_skipn_add, Lf.
+    remember (wpos + length X + (i - wpos - length X))%nat as i' eqn:Ei.
+    destruct (Nat.lt_ge_cases i' (length l)) as [Hlt|Hge].
+    + rewrite app_nth1 by exact Hlt. apply Pz. lia.
+    + rewrite app_nth2 by exact Hge. apply nth_repeat.
+  - rewrite app_assoc, firstn_app, app_length, Lf.
+    rewrite firstn_all2 by (rewrite app_length; lia).
+    replace (wpos + length X - (wpos + length X))%nat with 0%nat by lia.
+    cbn [firstn]. rewrite app_nil_r. f_equal.
+    rewrite firstn_app. replace (wpos - length l)%nat with 0%nat by lia.
+    cbn [firstn]. apply app_nil_r.
+Qed.
+
+Lemma usub_ok m a b : b <= a -> usub m a b = Ok (a - b).
+Proof. intros H. unfold usub. destruct (N.leb_spec b a); [reflexivity|lia]. Qed.
+
+Lemma ensure_spec m b n : bb_inv b -> bb_wpos b + n < two63 ->
+  exists b1, ensure_can_write m b n = Ok b1
+    /\ bb_wpos b1 = bb_wpos b /\ bb_rpos b1 = bb_rpos b
+    /\ blen (bb_buf b1) = (bb_wpos b + n + 7) / 8
+    /\ exists k, bb_buf b1 = bb_buf b ++ repeat 0 k.
+Proof.
+  intros (Hl & _ & _) Hb. unfold ensure_can_write, BYTE_LEN. unfold two63 in Hb.
+  rewrite uadd_ok by (unfold two64; lia). cbn [bind].
+  destruct (N.leb_spec (blen (bb_buf b) * 8) (bb_wpos b + n)) as [Hg|Hg].
+  - rewrite uadd_ok by (unfold two64; lia). cbn [bind].
+    rewrite usub_ok by lia. cbn [bind].
+    destruct (N.leb_spec two63 ((bb_wpos b + n + 7) / 8 - blen (bb_buf b))) as [Hc|Hc];
+      [unfold two63 in Hc; lia|].
+    eexists. split; [reflexivity|]. cbn [bb_wpos bb_rpos bb_buf]. repeat split.
+    + unfold blen in *. rewrite app_length, repeat_length. lia.
+    + eexists. reflexivity.
+  - exists b. repeat split; [lia|]. exists 0%nat. cbn [repeat]. rewrite app_nil_r. reflexivity.
+Qed.
+
+Lemma bb_step_inv b buf1 buf' n X rp :
+  bb_inv b ->
+  (exists k, buf1 = bb_buf b ++ repeat 0 k) ->
+  blen buf1 = (bb_wpos b + n + 7) / 8 ->
+  upd buf1 buf' (N.to_nat (bb_wpos b)) X -> length X = N.to_nat n ->
+  let b' := {| bb_buf := buf'; bb_wpos := bb_wpos b + n; bb_rpos := rp |} in
+  bb_inv b'
+  /\ firstn (N.to_nat (bb_wpos b')) (bits_of_bytes (bb_buf b'))
+     = firstn (N.to_nat (bb_wpos b)) (bits_of_bytes (bb_buf b)) ++ X.
+Proof.
+  intros (Hl & Hf & Hp) (k & Ek) Hl1 U LX b'. subst buf1.
+  destruct (write_preserves (bb_buf b) k (N.to_nat (bb_wpos b)) buf' X Hp) as (P1 & P2); [unfold blen in Hl; lia|exact U|].
+  destruct U as (_ & LU & FU).
+  unfold b', bb_inv, padding_zero. cbn [bb_buf bb_wpos]. split; [split; [|split]|].
+  - unfold blen in *. rewrite LU. lia.
+  - exact FU.
+  - intros i Hi. apply P1. lia.
+  - replace (N.to_nat (bb_wpos b + n)) with (N.to_nat (bb_wpos b) + length X)%nat by lia. exact P2.
+Qed.
+
+Lemma bb_write_bit_spec m b bit : bb_inv b -> bb_wpos b + 1 < two63 ->
+  exists b', bb_write_bit m b bit = Ok (b', None)
+    /\ bb_inv b' /\ bb_wpos b' = bb_wpos b + 1 /\ bb_rpos b' = bb_rpos b
+    /\ firstn (N.to_nat (bb_wpos b')) (bits_of_bytes (bb_buf b'))
+       = firstn (N.to_nat (bb_wpos b)) (bits_of_bytes (bb_buf b)) ++ [bit].
+Proof.
+  intros Hi Hb. unfold bb_write_bit.
+  destruct (ensure_spec m b 1 Hi Hb) as (b1 & E1 & W1 & R1 & L1 & K1). rewrite E1. cbn [bind].
+  assert (F1 : Forall byte (bb_buf b1)).
+  { destruct K1 as (k & ->). apply Forall_app. split; [apply Hi|apply Forall_repeat0]. }
+  destruct (write_bit_spec (bb_buf b1) (bb_wpos b1) bit F1) as [Wok _].
+  destruct Wok as (buf' & Ew & U); [rewrite W1; lia|].
+  rewrite Ew, W1, R1. rewrite W1 in U.
+  destruct (bb_step_inv b (bb_buf b1) buf' 1 [bit] (bb_rpos b) Hi K1 L1 U eq_refl) as (I' & P').
+  eexists. split; [reflexivity|]. cbn [bb_wpos bb_rpos bb_buf] in *. auto.
+Qed.
+
+Lemma bb_write_bits_ol_spec m b src soff slen :
+  bb_inv b -> Forall byte src -> soff + slen < two64 -> bb_wpos b + slen < two63 ->
+  (8 * blen src < soff + slen ->
+     bb_write_bits_ol m b src soff slen = Ok (b, Some E_INSUFFICIENT_SRC))
+  /\ (soff + slen <= 8 * blen src ->
+     exists b', bb_write_bits_ol m b src soff slen = Ok (b', None)
+       /\ bb_inv b' /\ bb_wpos b' = bb_wpos b + slen /\ bb_rpos b' = bb_rpos b
+       /\ firstn (N.to_nat (bb_wpos b')) (bits_of_bytes (bb_buf b'))
+          = firstn (N.to_nat (bb_wpos b)) (bits_of_bytes (bb_buf b))
+            ++ slice (bits_of_bytes src) (N.to_nat soff) (N.to_nat slen)).
+Proof.
+  intros Hi Fs Os Hb. unfold bb_write_bits_ol, BYTE_LEN.
+  rewrite (uadd_ok m soff slen Os). cbn [bind]. split; intros Hs.
+  - destruct (N.ltb_spec (blen src * 8) (soff + slen)); [reflexivity|lia].
+  - destruct (N.ltb_spec (blen src * 8) (soff + slen)); [lia|].
+    destruct (ensure_spec m b slen Hi Hb) as (b1 & E1 & W1 & R1 & L1 & K1). rewrite E1. cbn [bind].
+    assert (F1 : Forall byte (bb_buf b1)).
+    { destruct K1 as (k & ->). apply Forall_app. split; [apply Hi|apply Forall_repeat0]. }
+    destruct (write_bits_exact m (bb_buf b1) (bb_wpos b1) src soff slen Fs F1 Os) as (buf' & Ew & U).
+    { rewrite W1. unfold two63 in Hb. unfold two64. lia. } { exact Hs. } { rewrite W1. lia. }
+    rewrite Ew, W1, R1. rewrite W1 in U.
+    assert (LX : length (slice (bits_of_bytes src) (N.to_nat soff) (N.to_nat slen)) = N.to_nat slen).
+    { apply slice_length. rewrite bits_length. unfold blen in Hs. lia. }
+    destruct (bb_step_inv b (bb_buf b1) buf' slen _ (bb_rpos b) Hi K1 L1 U LX) as (I' & P').
+    eexists. split; [reflexivity|]. cbn [bb_wpos bb_rpos bb_buf] in *. auto.
+Qed.
+
+Lemma bb_write_bits_o_eq m b src soff : soff <= 8 * blen src ->
+  bb_write_bits_o m b src soff = bb_write_bits_ol m b src soff (8 * blen src - soff).
+Proof.
+  intros H. unfold bb_write_bits_o, BYTE_LEN. rewrite usub_ok by lia. cbn [bind].
+  f_equal. lia.
+Qed.
+
+(** write operations and reachable buffers *)
+Inductive wop :=
+| WBit (bit : bool)
+| WBits (src : list N) (soff slen : N)
+| WBitsO (src : list N) (soff : N).
+
+Definition apply_wop (m : mode) (b : bitbuffer) (op : wop) : res (bitbuffer * option N) :=
+  match op with
+  | WBit bit => bb_write_bit m b bit
+  | WBits src soff slen => bb_write_bits_ol m b src soff slen
+  | WBitsO src soff => bb_write_bits_o m b src soff
+  end.
+
+(* the side conditions on one operation: sources are byte lists (they are [u8] in Rust) and
+   the source range arithmetic does not wrap; all of these are satisfiable, e.g. by
+   [WBits [1;2;3] 3 20] and [WBitsO [1;2;3] 5] (see C11_nonvacuous) *)
+Definition wop_ok (op : wop) : Prop :=
+  match op with
+  | WBit _ => True
+  | WBits src soff slen => Forall byte src /\ soff + slen < two64
+  | WBitsO src soff => Forall byte src /\ soff <= 8 * blen src /\ 8 * blen src < two64
+  end.
+
+(* the number of bits an operation asks to append *)
+Definition wop_len (op : wop) : N :=
+  match op with
+  | WBit _ => 1
+  | WBits _ _ slen => slen
+  | WBitsO src soff => 8 * blen src - soff
+  end.
+
+Definition wops_len (ops : list wop) : N := fold_right (fun op a => wop_len op + a) 0 ops.
+
+(* a caller that ignores error results and carries on with the buffer it is left with *)
+Definition wop_step (m : mode) (r : res bitbuffer) (op : wop) : res bitbuffer :=
+  let! b := r in let! (b', _) := apply_wop m b op in Ok b'.
+Definition run_wops (m : mode) (ops : list wop) (b : bitbuffer) : res bitbuffer :=
+  fold_left (wop_step m) ops (Ok b).
+
+Lemma apply_wop_inv m b op :
+  bb_inv b -> wop_ok op -> bb_wpos b + wop_len op < two63 ->
+  exists b' e, apply_wop m b op = Ok (b', e) /\ bb_inv b'
+    /\ bb_wpos b' <= bb_wpos b + wop_len op
+    /\ (e <> None -> b' = b).
+Proof.
+  intros Hi Hok Hb. destruct op as [bit|src soff slen|src soff]; cbn [apply_wop wop_ok wop_len] in *.
+  - destruct (bb_write_bit_spec m b bit Hi Hb) as (b' & E & I' & W' & _).
+    exists b', None. split; [exact E|]. split; [exact I'|]. split; [lia|congruence].
+  - destruct Hok as [Fs Os].
+    destruct (bb_write_bits_ol_spec m b src soff slen Hi Fs Os Hb) as [Serr Sok].
+    destruct (N.lt_ge_cases (8 * blen src) (soff + slen)) as [H|H].
+    + exists b, (Some E_INSUFFICIENT_SRC). split; [exact (Serr H)|]. split; [exact Hi|]. split; [lia|reflexivity].
+    + destruct (Sok H) as (b' & E & I' & W' & _).
+      exists b', None. split; [exact E|]. split; [exact I'|]. split; [lia|congruence].
+  - destruct Hok as (Fs & Ho & O64). rewrite (bb_write_bits_o_eq m b src soff Ho).
+    destruct (bb_write_bits_ol_spec m b src soff (8 * blen src - soff) Hi Fs) as [_ Sok]; [lia|exact Hb|].
+    destruct Sok as (b' & E & I' & W' & _); [lia|].
+    exists b', None. split; [exact E|]. split; [exact I'|]. split; [lia|congruence].
+Qed.
+
+Lemma run_wops_inv m ops : forall b,
+  bb_inv b -> Forall wop_ok ops -> bb_wpos b + wops_len ops < two63 ->
+  exists b', run_wops m ops b = Ok b' /\ bb_inv b' /\ bb_wpos b' <= bb_wpos b + wops_len ops.
+Proof.
+  unfold run_wops.
+  induction ops as [|op ops IH]; intros b Hi Hok Hb.
+  - exists b. cbn [fold_left wops_len fold_right]. split; [reflexivity|]. split; [exact Hi|lia].
+  - cbn [wops_len fold_right] in Hb. fold (wops_len ops) in Hb.
+    apply Forall_cons_iff in Hok. destruct Hok as [Hop Hok].
+    destruct (apply_wop_inv m b op Hi Hop) as (b1 & e & E & I1 & W1 & _); [lia|].
+    cbn [fold_left]. unfold wop_step at 2. cbn [bind]. rewrite E. cbn [bind].
+    destruct (IH b1 I1 Hok) as (b' & E' & I' & W'); [lia|].
+    exists b'. split; [exact E'|]. split; [exact I'|].
+    cbn [wops_len fold_right]. fold (wops_len ops). lia.
+Qed.
+
+Lemma buffer_inv m ops :
+  Forall wop_ok ops -> wops_len ops < two63 ->
+  exists b', run_wops m ops bb_empty = Ok b' /\ bb_inv b' /\ bb_wpos b' <= wops_len ops.
+Proof.
+  intros Hok Hb. destruct (run_wops_inv m ops bb_empty bb_inv_empty Hok) as (b' & E & I' & W').
+  - cbn [bb_empty bb_wpos]. lia.
+  - exists b'. cbn [bb_empty bb_wpos] in W'. split; [exact E|]. split; [exact I'|lia].
+Qed.
+
+(** the single-operation form: every [Ok] outcome of a BitBuffer write, with or without an
+    error kind, carries a buffer that satisfies the invariant *)
+Lemma buffer_inv_step :
+  bb_inv bb_empty
+  /\ (forall m b bit b' e, bb_inv b -> bb_wpos b + 1 < two63 ->
+        bb_write_bit m b bit = Ok (b', e) -> bb_inv b')
+  /\ (forall m b src soff slen b' e, bb_inv b -> Forall byte src ->
+        soff + slen < two64 -> bb_wpos b + slen < two63 ->
+        bb_write_bits_ol m b src soff slen = Ok (b', e) -> bb_inv b')
+  /\ (forall m b src soff b' e, bb_inv b -> Forall byte src ->
+        soff <= 8 * blen src -> 8 * blen src < two64 -> bb_wpos b + (8 * blen src - soff) < two63 ->
+        bb_write_bits_o m b src soff = Ok (b', e) -> bb_inv b').
+Proof.
+  split; [exact bb_inv_empty|]. split; [|split].
+  - intros m b bit b' e Hi Hb H.
+    destruct (apply_wop_inv m b (WBit bit) Hi I Hb) as (b1 & e1 & E & I1 & _).
+    cbn [apply_wop] in E. congruence.
+  - intros m b src soff slen b' e Hi Fs Os Hb H.
+    destruct (apply_wop_inv m b (WBits src soff slen) Hi (conj Fs Os) Hb) as (b1 & e1 & E & I1 & _).
+    cbn [apply_wop] in E. congruence.
+  - intros m b src soff b' e Hi Fs Ho O64 Hb H.
+    destruct (apply_wop_inv m b (WBitsO src soff) Hi (conj Fs (conj Ho O64)) Hb) as (b1 & e1 & E & I1 & _).
+    cbn [apply_wop] in E. congruence.
+Qed.
+
+Lemma buffer_refines :
+  (forall m b src soff slen b', bb_inv b -> Forall byte src ->
+     soff + slen < two64 -> bb_wpos b + slen < two63 ->
+     bb_write_bits_ol m b src soff slen = Ok (b', None) ->
+     bb_wpos b' = bb_wpos b + slen /\ bb_rpos b' = bb_rpos b
+     /\ firstn (N.to_nat (bb_wpos b')) (bits_of_bytes (bb_buf b'))
+        = firstn (N.to_nat (bb_wpos b)) (bits_of_bytes (bb_buf b))
+          ++ slice (bits_of_bytes src) (N.to_nat soff) (N.to_nat slen))
+  /\ (forall m b bit b', bb_inv b -> bb_wpos b + 1 < two63 ->
+     bb_write_bit m b bit = Ok (b', None) ->
+     bb_wpos b' = bb_wpos b + 1 /\ bb_rpos b' = bb_rpos b
+     /\ firstn (N.to_nat (bb_wpos b')) (bits_of_bytes (bb_buf b'))
+        = firstn (N.to_nat (bb_wpos b)) (bits_of_bytes (bb_buf b)) ++ [bit]).
+Proof.
+  split.
+  - intros m b src soff slen b' Hi Fs Os Hb H.
+    destruct (bb_write_bits_ol_spec m b src soff slen Hi Fs Os Hb) as [Serr Sok].
+    destruct (N.lt_ge_cases (8 * blen src) (soff + slen)) as [Hs|Hs].
+    + rewrite (Serr Hs) in H. discriminate.
+    + destruct (Sok Hs) as (b1 & E & _ & W & R & P). assert (b1 = b') by congruence. subst b1. auto.
+  - intros m b bit b' Hi Hb H.
+    destruct (bb_write_bit_spec m b bit Hi Hb) as (b1 & E & _ & W & R & P).
+    assert (b1 = b') by congruence. subst b1. auto.
+Qed.
+
+
+(** * byte lists are determined by their bits; single-bit operations as copies of length 1 *)
+Lemma byte_roundtrip_sweep :
+  forallb (fun b : N => byte_of_bits (byte_bits b) =? b) (nrange 256) = true.
+Proof. vm_compute. reflexivity. Qed.
+
+Lemma byte_of_bits_byte_bits b : b < 256 -> byte_of_bits (byte_bits b) = b.
+Proof. intros H. apply N.eqb_eq. exact (sweep _ _ byte_roundtrip_sweep b H). Qed.
+
+Lemma bits_inj l1 : forall l2, Forall byte l1 -> Forall byte l2 ->
+  bits_of_bytes l1 = bits_of_bytes l2 -> l1 = l2.
+Proof.
+  induction l1 as [|a l1 IH]; intros [|b l2] F1 F2 E; try reflexivity; try discriminate E.
+  apply Forall_cons_iff in F1. apply Forall_cons_iff in F2. destruct F1 as [Ha F1], F2 as [Hb F2].
+  rewrite !bits_cons in E.
+  pose proof (f_equal (firstn 8) E) as E1. pose proof (f_equal (skipn 8) E) as E2.
+  change (byte_bits a = byte_bits b) in E1.
+  change (bits_of_bytes l1 = bits_of_bytes l2) in E2.
+  f_equal; [|apply IH; assumption].
+  rewrite <- (byte_of_bits_byte_bits a Ha), <- (byte_of_bits_byte_bits b Hb), E1. reflexivity.
+Qed.
+
+Lemma bit_ops_are_copies m buf pos : Forall (fun b => b < 256) buf ->
+  pos < 8 * blen buf -> pos + 1 < two64 ->
+  (forall bit, exists buf', slice_write_bit buf pos bit = Ok (buf', pos + 1)
+      /\ bit_string_copy m [if bit then 128 else 0] 0 buf pos 1 = Ok buf')
+  /\ (exists b, slice_read_bit buf pos = Ok (b, pos + 1)
+      /\ bit_string_copy m buf pos [0] 0 1 = Ok [if b then 128 else 0]).
+Proof.
+  intros F Hp Ho. split.
+  - intros bit. destruct (write_bit_spec buf pos bit F) as [W _].
+    destruct (W Hp) as (buf' & Ew & Uw). exists buf'. split; [exact Ew|].
+    assert (Fs : Forall byte [if bit then 128 else 0]) by (constructor; [destruct bit; reflexivity|constructor]).
+    destruct (bit_string_copy_exact m [if bit then 128 else 0] 0 buf pos 1 Fs F) as (d & Ec & Uc);
+      [reflexivity|exact Ho|destruct bit; vm_compute; congruence|lia|].
+    rewrite Ec. f_equal. destruct Uw as (E1 & _ & F1). destruct Uc as (E2 & _ & F2).
+    apply bits_inj; [exact F2|exact F1|]. rewrite E1, E2. destruct bit; reflexivity.
+  - destruct (read_bit_spec buf pos F) as [R _]. destruct (R Hp) as [Er Es].
+    eexists. split; [exact Er|].
+    assert (F0 : Forall byte [0]) by (constructor; [reflexivity|constructor]).
+    destruct (bit_string_copy_exact m buf pos [0] 0 1 F F0) as (d & Ec & Uc);
+      [exact Ho|reflexivity|lia|vm_compute; congruence|].
+    rewrite Ec. f_equal. destruct Uc as (E2 & _ & F2).
+    apply bits_inj; [exact F2| |].
+    + constructor; [|constructor]. destruct (nth (N.to_nat pos) (bits_of_bytes buf) false); reflexivity.
+    + rewrite E2. change (N.to_nat 1) with 1%nat. rewrite Es.
+      destruct (nth (N.to_nat pos) (bits_of_bytes buf) false); reflexivity.
+Qed.
